@@ -202,6 +202,7 @@ func checkOpaque(e *Env, built []string) {
 // linux/amd64, repeated under every Linux port that builds other files (skip: targets analysed anyway).
 func RunAll(e *Env, prop string, spec *Spec, skip []string) {
 	RunSpec(e, prop, spec)
+	checkLoopVarCapture(e)
 	if prop != "C19" { // C19 analyses every target anyway
 		RunOtherFileSets(e, prop, spec, skip)
 	}
